@@ -79,8 +79,9 @@ pub struct Opts {
     /// listed in riti.h (English ... ANSI, smart quote); true = reversed (ANSI before English).
     /// A front-end may call them in any order; the result must not depend on it.
     pub reversed_setters: bool,
-    /// true = the context is created with every boolean option inverted (same layout, data and user directory) and
-    /// reaches these options through update_engine before the first event: a live, re-configured context.
+    /// true = the context is created with every boolean option inverted (same layout, data and user directory), composes
+    /// and ends one word under those options, and reaches these options through update_engine (while idle) before the
+    /// first event: a live, used, re-configured context.
     pub via_update: bool,
 }
 
@@ -633,6 +634,11 @@ impl Ctx {
             let cfg0 = inv.to_config();
             guard(|| {
                 let mut c = RitiContext::new_with_config(&cfg0);
+                // a used context: one word (an emoji name in phonetic mode) composed and ended under the old options
+                for ch in "help".chars() {
+                    let _ = c.get_suggestion_for_key(crate::keys::code_for_char(ch).unwrap(), 0, 0);
+                }
+                c.finish_input_session();
                 c.update_engine(&cfg);
                 c
             })?
